@@ -8,7 +8,7 @@ ENGINES = {
             1: dict(cls="corr", props=["C19"], what="sort/ask list/node collection model and implementation disagree"),
             2: dict(cls="oracle", props=["C19"], what="a sorter returned two candidates the policy distinguishes in the wrong relative order (the order depends on how the candidates were stored) or lost/duplicated a candidate"),
             3: dict(cls="known", props=["C19"], finding="C19-pending-tiebreak", what="pending tie-break window"),
-            4: dict(cls="oracle", props=["C19"], what="node iteration: a registered node not visited exactly once, unreserved view wrong, or order/cached score not current"),
+            4: dict(cls="oracle", props=["C19"], what="node iteration: a registered node not visited exactly once, unreserved view wrong, order/cached score not current, or the scores do not order the nodes like the documented utilisation score"),
             5: dict(cls="known", props=["C19"], finding="C19-foreign-stale", what="stale score after a Node method that does not notify"),
             6: dict(cls="oracle", props=["C19"], what="sortedRequests not sorted by (priority desc, create time asc) or not exactly the inserted-not-removed asks"),
         },
